@@ -419,6 +419,17 @@ loop:
 		}
 		switch kind {
 		case "dr":
+			if (variant+uint64(i))%2 == 0 {
+				// a polite reader: it announces that it is closing the connection (ConnectionCloseEvent) and then hangs up.
+				// For the supervisor this is a connection that ended, like any other drop.
+				ev := &llrp.ReaderEventNotification{ReaderEventNotificationData: llrp.ReaderEventNotificationData{
+					UTCTimestamp: llrp.UTCTimestamp(1), ConnectionCloseEvent: &llrp.ConnectionCloseEvent{}}}
+				if b, err := ev.MarshalBinary(); err == nil {
+					conn.SetWriteDeadline(time.Now().Add(time.Second))
+					_, _ = conn.Write(vframe(63, 4242, b))
+					time.Sleep(2 * time.Millisecond)
+				}
+			}
 			conn.Close()
 			lastFail = time.Now()
 		case "cl":
